@@ -306,6 +306,13 @@ class Program:
                 st.heap[oid] = ArrObj(kind, arr=z3.Array(name, IntS, kind_sort(kind)), length=n,
                                       origin=origin, name=name, pykind='cblock')
                 return Ptr(oid, 0)
+            if desc == 'idxarr':
+                n = z3.Int(name + '_len')
+                st.assume(n >= 0)
+                oid = st.new_oid('A')
+                st.heap[oid] = ArrObj('int', arr=z3.Array(name, IntS, IntS), length=n, origin=origin, name=name,
+                                      pykind='ndarray', dtype=('sym', z3.Bool(name + '_intdtype')))
+                return Ref(oid)
             if desc == 'series_collection':
                 # a Python list / SeriesContainer of series: element k is a read-only series object
                 cnt = z3.Int(name + '_len')
